@@ -40,6 +40,8 @@ def run(ck, progs):
 def reset_fields(prog, f):
     """fields of self that f assigns, or on which it calls a resetting method (clear / take / truncate / fill), incl. through `if let Some(x) = &mut self.f`"""
     done = {}
+    sites = f.rec.setdefault("_reset_sites", {})
+    sites.clear()
     for bi in sorted(f.live_blocks()):
         b = f.blocks[bi]
         if b["cleanup"]:
@@ -51,6 +53,7 @@ def reset_fields(prog, f):
                 if flds and (st["p"][0] == 1 or (root and root[-1][0] == "arg" and root[-1][1] == 1)):
                     # an element-wise store through an index projection counts for the buffer too
                     done.setdefault(flds[0], "assigned")
+                    sites.setdefault(flds[0], []).append(bi)
         t = b["t"]
         if t["k"] == "call":
             from .lib.mir import Call
@@ -60,6 +63,7 @@ def reset_fields(prog, f):
                 m = re.search(r"arg1\.(\w+)", d)
                 if m:
                     done.setdefault(m.group(1), "%s()" % c.name)
+                    sites.setdefault(m.group(1), []).append(bi)
     # element stores `*b = 0` in a loop over `&mut *self.buf`
     for c in f.calls():
         if re.search(r"::into_iter$|::iter_mut$", c.callee or ""):
@@ -67,7 +71,31 @@ def reset_fields(prog, f):
             m = re.search(r"arg1\.(\w+)", d)
             if m:
                 done.setdefault(m.group(1), "element loop")
+                sites.setdefault(m.group(1), []).append(c.bb)
     return done
+
+
+def foreign_conditions(prog, f, fld, bb):
+    """the conditions under which block bb (a reset of self.<fld>) runs, other than `the field itself has something to reset`
+    (`if let Some(m) = &mut self.fld`, `!self.fld.is_empty()`, the iteration over the field's own elements)"""
+    out = []
+    for fa in guards.facts_at(f, prog, bb):
+        if fa.kind == "variant":
+            d = decision.describe_deep(f, fa.place, 5) if getattr(fa, "place", None) else guards.describe_origin(f, fa.steps)
+            own = re.search(r"arg1\.%s\b" % re.escape(fld), d) is not None
+            it = bool(fa.steps) and fa.steps[-1][0] == "call" and fa.steps[-1][1].name == "next"
+            if getattr(fa, "derived", None) or (own and (fa.allowed == {"Some"} or it)) or (it and fa.allowed == {"None"}):
+                continue        # (`next()` answering None: a loop in front of the reset has ended, whatever it ran over)
+            out.append("match %s in %s" % (d[:50], sorted(map(str, fa.allowed or []))))
+        elif fa.kind == "boolcall":
+            d = decision.describe_deep(f, fa.call.args[0], 5) if fa.call.args else ""
+            own = re.search(r"arg1\.%s\b" % re.escape(fld), d) is not None
+            if own and ((fa.call.name == "is_empty" and not fa.truth) or (fa.call.name == "is_some" and fa.truth) or (fa.call.name == "is_none" and not fa.truth)):
+                continue
+            out.append("%s(%s) is %s" % (fa.call.name, d[:50], fa.truth))
+        elif fa.kind in ("cmp", "boolplace"):
+            out.append(fa.kind + " " + (guards.describe_origin(f, fa.lhs)[:40] if fa.kind == "cmp" else ""))
+    return out
 
 
 def first_buffer_byte(f, steps):
@@ -111,6 +139,14 @@ def c05a(ck, prog):
             ck.ob(R, "%s.%s" % (adtkey.rsplit("::", 1)[-1], fld), ok, f.loc(None),
                   "" if ok else "%s::clear() does not reset field `%s`: its value from the previous request on the connection is visible to the next one" % (adtkey.rsplit("::", 1)[-1], fld),
                   how=("reset: " + done[fld]) if fld in done else "exempt: " + str(ex))
+            # ... on every path: some reset site of the field runs under no condition other than `this field has something to
+            # reset` (Request::clear's own condition is the subject of Request::clear:guard below)
+            if fld in done and adtkey != "ohkami::request::Request":
+                per_site = [foreign_conditions(prog, f, fld, bb) for bb in f.rec.get("_reset_sites", {}).get(fld, [])]
+                oku = any(not fc for fc in per_site)
+                ck.ob(R, "%s.%s:unconditional" % (adtkey.rsplit("::", 1)[-1], fld), oku, f.loc(None),
+                      "" if oku else "%s::clear() resets field `%s` only under %s: on the other paths the field's content from the previous request on the connection is visible to the next one" % (adtkey.rsplit("::", 1)[-1], fld, "; ".join(per_site[0]) if per_site else "?"),
+                      how="a reset of the field runs whenever the field holds something")
     ck.floor(R, "fields examined", nfields, 13)
     # `method` exemption: every Ok(Some) of read is dominated by a store to .method
     rd = prog.coroutine_body(prog.one(r"^ohkami::request::Request::read$").key)
